@@ -133,6 +133,9 @@ def patterns(s):
             if s["prog"][t]["beh"] in ("cancel", "cancelmid") and phase.get(t) in ("wait", "dial"):
                 out.add("caller-cancels-" + ("in-login" if s["prog"][t]["beh"] == "cancel" else "before-joingame"))
             phase[t] = "after"
+        elif k == "o":
+            out.add("current-backend-closes-by-itself-during-switch")
+            phase[t] = "after"
         elif k == "x":
             out.add("client-breaks-while-switch-completes")
             phase[t] = "after"
@@ -356,6 +359,8 @@ def run(ctx):
         ctx.log("schedules the rig could not set up (no verdict): %s" % st["skipped"][:4])
     if st["runs"] < 0.8 * len(scheds):
         raise vlib.ToolError("only %d of %d schedules could be driven: %s" % (st["runs"], len(scheds), (st.get("skipped") or [])[:4]))
+    if not st.get("runs_with_old_backend_teardown_held_during_switch"):
+        raise vlib.ToolError("hook_missing: no teardown of a self-closing current backend was ever held at cc.disconnecting")
     if not st.get("request_contexts_cancelled"):
         raise vlib.ToolError("vacuous: no request context was ever cancelled by the schedule")
     if not st.get("runs_with_client_break_held_at_switch_completion"):
@@ -393,6 +398,7 @@ def run(ctx):
         "runs_with_overlapping_calls": st["runs_with_overlapping_calls"],
         "diverged_schedules": st["diverged"],
         "request_contexts_cancelled": st.get("request_contexts_cancelled", 0),
+        "old_backend_teardowns_held_during_switch": st.get("runs_with_old_backend_teardown_held_during_switch", 0),
         "first_connection_runs_held_at_ack": st.get("first_connection_runs_held_at_ack", 0),
         "client_breaks_held_at_switch_completion": st.get("runs_with_client_break_held_at_switch_completion", 0),
         "runs_with_a_call_that_never_returned": st["unfinished"],
